@@ -71,10 +71,18 @@ def run(ctx):
         for data in variants:
             hx = data.hex() or "-"
             n = len(insts) + 3
+            # the three entry points: Parser::new(..).parse(), parse_bytes, parse_words (whole words only)
+            entries = ["parse", "parseb"] + (["parsew"] if len(data) % 4 == 0 else [])
             reqs.append(f"parse {hx}")
             for k in range(0, n + 1):          # every callback position, both answers
                 reqs.append(f"parse {hx} {k}:s")
                 reqs.append(f"parse {hx} {k}:e")
+            for en in entries[1:]:
+                reqs.append(f"{en} {hx}")
+                for k in sorted({0, 1, 2, n - 1, n}):
+                    if k >= 0:
+                        reqs.append(f"{en} {hx} {k}:s")
+                        reqs.append(f"{en} {hx} {k}:e")
             for _ in range(3):                   # two answers: only the first reached one may matter
                 a, b = sorted(rnd.sample(range(n + 1), 2))
                 reqs.append(f"parse {hx} {a}:{rnd.choice('se')} {b}:{rnd.choice('se')}")
